@@ -25,7 +25,12 @@ for s in seeds:
             t0 = time.time()
             c = subprocess.run([os.path.join(V, 'check'), p, '--tier', tier], capture_output=True, text=True, cwd=V)
             lines = [l for l in c.stdout.split('\n') if l.startswith(('VIOLATION', 'UNDECIDED', '  failed', 'KNOWN'))]
-            out[p] = {'exit': c.returncode, 'lines': lines[:6], 's': round(time.time() - t0, 1)}
+            names = sorted({l.split('failed: ', 1)[1].split(':', 1)[0] for l in lines if l.startswith('  failed')})
+            out[p] = {'exit': c.returncode, 'lines': lines[:6], 's': round(time.time() - t0, 1),
+                      'verus_failed': [n for n in names if n[0] == 'U'], 'kani_failed': [n for n in names if n[0] == 'K'],
+                      'bec_failed': [n for n in names if n[0] not in 'UK'],
+                      'undecided': sorted({l.split(': ', 1)[1].split(':', 1)[0] for l in lines if l.startswith('UNDECIDED') and ': ' in l}),
+                      'no_failing_input': any('no-failing-input-found' in l for l in lines)}
             print(f'{s} {p}: exit {c.returncode}', (lines[0][:200] if lines else ''))
         results[s] = {'breaks': meta['breaks'], 'tier': tier, 'checks': out,
                       'caught': all(out[p]['exit'] == 1 for p in meta['breaks'] if p in out),
